@@ -5,6 +5,7 @@ package harness
 import (
 	"bytes"
 	"encoding/json"
+	"flag"
 	"fmt"
 	"os"
 	"path/filepath"
@@ -86,6 +87,20 @@ func writeFuzzViolation(prop, check, scope string, f *Failure, c any) {
 func CheckProp[C any](t *testing.T, prop, check, scope string, draw func(rt *rapid.T) *C, oracle func(*C) *Failure) {
 	t.Helper()
 	rapid.Check(t, MkProp(prop, check, scope, draw, oracle).Run)
+}
+
+// WithChecks runs fn with rapid's -rapid.checks set to n (a property made of many per-type sub-properties beside a
+// cheap primitive-level one needs a different budget per part).
+func WithChecks(n int, fn func()) {
+	fl := flag.Lookup("rapid.checks")
+	if fl == nil {
+		fn()
+		return
+	}
+	old := fl.Value.String()
+	_ = flag.Set("rapid.checks", fmt.Sprint(n))
+	defer func() { _ = flag.Set("rapid.checks", old) }()
+	fn()
 }
 
 // RunProps runs each property as a sub-test under rapid.Check.
